@@ -30,6 +30,7 @@ type observation struct {
 	Prefix      int      `json:"recovered_prefix"` // recovered content == batches 1..Prefix; -1 = not a prefix
 	Rows        int      `json:"rows"`
 	LoadedEpoch uint64   `json:"loaded_epoch"`
+	Lives       string   `json:"graceful_restart_chain,omitempty"` // round 2, lives.go
 }
 
 var (
@@ -270,6 +271,9 @@ func recoverState(h *history, tree *crashfs.Tree, scratch string) *observation {
 	if t != nil {
 		_ = guard(t.Close)
 	}
+	// round 2: the same crash state once more, recovered and then only shut down gracefully and restarted (lives.go)
+	lp, trail := gracefulLives(openMeasureLife, tree, scratch)
+	ob.Problems, ob.Lives = append(ob.Problems, lp...), trail
 	ob.Problems = uniq(ob.Problems)
 	return ob
 }
